@@ -40,6 +40,7 @@ class Machine:
     FAMILY_WEIGHTS = None
     NMAX = {"quick": 6, "thorough": 7}
     FMTS = ("bnet", "aeon")
+    SHUFFLE_ORDER = False  # with the "api" format: declare the variables in a non-alphabetical order
     USE_BUDGET = True
 
     # ------------------------------------------------------------ generation
@@ -47,7 +48,7 @@ class Machine:
         from .netgen import gen_network
 
         rng = sub_rng(run_seed, "net")
-        net = gen_network(rng, self.FAMILY_WEIGHTS, nmax=self.NMAX.get(tier, 6), fmts=self.FMTS)
+        net = gen_network(rng, self.FAMILY_WEIGHTS, nmax=self.NMAX.get(tier, 6), fmts=self.FMTS, shuffle_order=self.SHUFFLE_ORDER)
         sc = {
             "property": self.ID,
             "run_seed": run_seed,
@@ -251,7 +252,11 @@ def cache_op(world, rng):
     if r < 0.3:
         return {"op": "reclaim"}
     if r < 0.65:
-        return {"op": "perc_pn", "node": world.space_of(nid)}
+        op = {"op": "perc_pn", "node": world.space_of(nid)}
+        preds = sorted(world.sd.dag.predecessors(nid))
+        if preds and rng.random() < 0.5:
+            op["parent"] = world.space_of(rng.choice(preds))
+        return op
     from .ops import EVICTABLE
 
     return {"op": "evict", "node": world.space_of(nid), "field": rng.choice(EVICTABLE[:3])}
@@ -329,7 +334,15 @@ def query_op(world, rng):
     if r < 0.8:
         return {"op": rng.choice(["scc_subdiagrams", "edge_motifs"]), "node": world.space_of(nid)}
     # percolated data of a node (answers must not depend on what is cached)
-    return {"op": rng.choice(["perc_network", "perc_nfvs", "perc_pn"]), "node": world.space_of(nid)}
+    kind = rng.choice(["perc_network", "perc_nfvs", "perc_pn", "perc_pn"])
+    op = {"op": kind, "node": world.space_of(nid)}
+    if kind == "perc_pn":
+        # public keyword: start the percolation from the (cached) net of a given parent node;
+        # any predecessor is a parent, not only the one that created the node
+        preds = sorted(world.sd.dag.predecessors(nid))
+        if preds and rng.random() < 0.6:
+            op["parent"] = world.space_of(rng.choice(preds))
+    return op
 
 
 def full_op(world, rng, w=None):
